@@ -263,7 +263,10 @@ func (p *ParagraphReader) Next() (*Paragraph, error) {
 		lastKey = strings.TrimSpace(els[0])
 		value := strings.TrimSpace(els[1])
 
-		paragraph.Order = append(paragraph.Order, lastKey)
+		if _, found := paragraph.Values[lastKey]; !found {
+			/* a repeated field keeps its place; the later value wins */
+			paragraph.Order = append(paragraph.Order, lastKey)
+		}
 		paragraph.Values[lastKey] = value
 	}
 }
